@@ -68,6 +68,10 @@ def analyse(src: Source) -> List[Report]:
     from .c06 import HEAP_C, check_heap_scheduler, check_list_scheduler
     check_heap_scheduler(src, rep, CUnit(src, HEAP_C))
     check_list_scheduler(src, rep)
+    # ... and the activator must know every candidate it handed out until a trash list returns it: the bookkeeping of the
+    # running / not-running pools (shared with C09)
+    from ..activator_rules import check as check_activator
+    check_activator(prog, rep)
     rep.unit("config_files", len(cfgs))
     rep.unit("handler_classes", len(handlers))
     rep.extra["states"] = states
